@@ -90,6 +90,7 @@ Pred(fam, fn, p, x) ==
     [] fam = "string" /\ fn = "has_a"  -> NInSeq(97, x)                       \* |s| s.contains('a')
     [] fam = "string" /\ fn = "ascii"  -> \A i \in DOMAIN x : x[i] < 128     \* |s| s.is_ascii()
     [] fam = "string" /\ fn = "re_has_a"   -> NInSeq(97, x)                   \* regex = "a"  (unanchored search)
+    [] fam = "string" /\ fn = "re_a_dot"   -> \E i \in DOMAIN x : i < Len(x) /\ x[i] = 97 /\ x[i + 1] # 10   \* regex = "a." (a literal whose only meta character is the dot)
     [] fam = "string" /\ fn = "re_lower"   -> Len(x) > 0 /\ \A i \in DOMAIN x : x[i] \in 97..122   \* regex = "^[a-z]+$"
     [] fam = "string" /\ fn = "re_digits"  -> \A i \in DOMAIN x : x[i] \in 48..57                 \* regex = "^[0-9]*$"
     [] fam = "any" /\ fn = "non_empty" -> Len(x) > 0                         \* |v| !v.is_empty()
